@@ -299,13 +299,16 @@ Definition new_uni (sv : server) (u : N) : univ :=
    exist; the reply payload is not modelled, only success / the error):
    0 Patch, 5 ConfigureDevice, 6 SetPortPriorityInherit -> "Device doesn't exist";
    2 FetchPluginDescription, 9 FetchPluginState -> "Plugin not loaded";
-   4 FetchCandidatePorts(u), 7 RunDiscovery(u, cached) -> "Universe doesn't exist" unless u exists;
-   1 FetchPluginList, 3 FetchDeviceInfo, 8 FetchUniverseList, 10 SetSourceUID, others -> success. *)
+   4 FetchCandidatePorts(u), 7/11/12 RunDiscovery(u, cached/incremental/full), 13 RDMGet(u), 14 RDMSet(u)
+     -> "Universe doesn't exist" unless u exists (a universe that exists only through clients has no
+     output ports: discovery completes at once with no UIDs, an RDM request with "unknown UID");
+   1 FetchPluginList, 3 FetchDeviceInfo, 8 FetchUniverseList, 10 SetSourceUID, 15 SendTimeCode,
+   16 ReloadPlugins, 17 SetPluginState, others -> success. *)
 Definition E_PLUGIN : N := 5.      (* "Plugin not loaded" *)
 Definition opq_err (sv : server) (kd u : N) : option N :=
   if (kd =? 0) || (kd =? 5) || (kd =? 6) then Some E_DEVICE
   else if (kd =? 2) || (kd =? 9) then Some E_PLUGIN
-  else if (kd =? 4) || (kd =? 7) then
+  else if (kd =? 4) || (kd =? 7) || (kd =? 11) || (kd =? 12) || (kd =? 13) || (kd =? 14) then
     match find_uni (sv_unis sv) u with Some _ => None | None => Some E_UNIVERSE end
   else None.
 
